@@ -130,6 +130,7 @@ type c14Family struct {
 	set   []string
 	alpha []string // symbols (bytes or tokens) lines are built from
 	long  bool     // token alphabet: shorter words
+	huge  bool     // symbols of hundreds of bytes: shorter still
 }
 
 // c14LongNames: allowed names at and around the sizes at which a length-indexed table or bitmap would wrap.
@@ -141,7 +142,7 @@ func c14LongNames() c14Family {
 		f.alpha = append(f.alpha, name)
 	}
 	f.alpha = append(f.alpha, f.set[2]+"z", f.set[2][:63], f.set[6][:255], ",", " ", "\t")
-	f.long = true
+	f.long, f.huge = true, true
 	return f
 }
 
@@ -205,6 +206,9 @@ func checkC14(c *vlib.Ctx) (string, string) {
 		if f.long {
 			n1 = vlib.Pick(c, 6, 7)
 		}
+		if f.huge {
+			n1 = vlib.Pick(c, 5, 6) // every symbol is up to 300 bytes long
+		}
 		w1 := vlib.NewWords(f.alpha, n1)
 		c.ParRange(w1.Count(), 4096, "C14 single lines", func(i int64) {
 			line := w1.At(i)
@@ -218,6 +222,9 @@ func checkC14(c *vlib.Ctx) (string, string) {
 		n2 := vlib.Pick(c, 4, 5)
 		if f.long {
 			n2 = vlib.Pick(c, 3, 4)
+		}
+		if f.huge {
+			n2 = 3
 		}
 		w2 := vlib.NewWords(f.alpha, n2)
 		p := w2.Count()
